@@ -25,6 +25,18 @@ def rsOp (op : String) (args : List String) : Option String :=
     match check w m with
     | some b => some (if b then "1" else "0")
     | none => some "ERR AssertionError"
+  | "rs.syn", [w] => do
+    -- specification side: the three syndromes of an octet string at α¹, α², α³ (no counterpart in the code)
+    let w ← hexToBytes w
+    some s!"{syndrome 1 w} {syndrome 2 w} {syndrome 3 w}"
+  | "rs.checkroots", [js, w, m] => do
+    -- the checker that tests only the listed roots (digits 0..9), e.g. "12"
+    let js := js.toList.filterMap (fun ch => if ch.isDigit then some (ch.toNat - 48) else none)
+    let w ← hexToBytes w
+    let m ← hexToBytes m
+    match checkRoots js w m with
+    | some b => some (if b then "1" else "0")
+    | none => some "ERR AssertionError"
   | _, _ => none
 
 end Dmr.Driver
